@@ -38,7 +38,7 @@ ASSUMPTIONS = [
     "no proof-of-work-limit (powLimit) test is demanded of check_pow; negative, zero and overflowing compact targets must fail as in CheckProofOfWork",
     "for altered flag bits / transaction count / dropped / extra / swapped hashes only 'ids yielded by a validating proof are ids of the block' is demanded; for altered hash bits and root bits validation must fail",
     "multi-field forgeries (e.g. a smaller transaction count presenting inner nodes as leaves, which Bitcoin Core's extractor accepts too) are outside the quantifier and only counted as observed:*",
-    "compact bits are asserted for exponent 1..32 (the quantifier); retarget is asserted for previous targets in (0, 2^224) where arith_uint256 does not wrap",
+    "compact bits -> target VALUES are asserted for exponent 1..32 (the quantifier), the proof-of-work verdict for every exponent byte (overflow); retarget is asserted for previous targets in (0, 2^224) where arith_uint256 does not wrap",
     "transaction counts above 2^25 make MerkleTree allocate gigabytes; the shard runs under RLIMIT_AS (512 MB) so that such a proof ends in MemoryError (a rejection)",
 ]
 
@@ -57,6 +57,7 @@ GATES = {
     "tamper-outcomes": ["tamper:rejected", "tamper:still-valid-ids-subset"],
     "pow-boundary": ["pow:stub-hash=target-1", "pow:stub-hash=target", "pow:stub-hash=target+1"],
     "pow-real": ["pow:mined-valid", "pow:real-hash-above-target"],
+    "pow-every-exponent": ["pow:bits-exponent-outside-1..32", "pow:overflowing-bits"],
     "bits-classes": ["bits:exponent<3", "bits:sign-bit", "bits:zero-mantissa", "bits:exponent=32", "target:below-2^16", "target:high-bit-first-byte"],
     "retarget-classes": [
         "retarget:dt<=0", "retarget:dt=T/4-1", "retarget:dt=T/4", "retarget:dt=T/4+1", "retarget:dt=T", "retarget:dt=4T-1",
@@ -455,8 +456,9 @@ def post_check_pow(args, kwargs, pre, out):
         return NotImplemented
     bits4 = raw[72:76]
     if not _exp_in_quantifier(bits4):
-        ctx.count("observed:bits-exponent-outside-1..32")
-        return NotImplemented
+        # the proof-of-work test is demanded "for every header": outside exponent 1..32 the compact value may overflow
+        # 256 bits (CheckProofOfWork: fOverflow -> false); the target VALUE itself is only asserted inside 1..32
+        ctx.count("pow:bits-exponent-outside-1..32")
     stub = _state["stub"]
     digest = stub if stub is not None else ch.hash256(raw)
     c = ch.compact_from_bits4(bits4)
@@ -468,6 +470,8 @@ def post_check_pow(args, kwargs, pre, out):
         for name, v in (("target-1", value - 1), ("target", value), ("target+1", value + 1)):
             if proof == v:
                 ctx.count("pow:stub-hash=" + name)
+    if ovf:
+        ctx.count("pow:overflowing-bits")
     if stub is None:
         ctx.count("pow:mined-valid" if exp else "pow:real-hash-above-target")
     if out[0] == "exc":
